@@ -301,6 +301,12 @@ func propC05(e *Env) {
 		hist = append(hist, "(clock +1h or more)")
 		gc()
 		L = "m " + k
+		if e.Bool("gen") {
+			// ... or it is re-created by a line of the history, and L marks it for expiry again
+			vh.ProcessLogLine(ctx, logline.New(ctx, "log", L))
+			hist = append(hist, L)
+			L = "e " + k
+		}
 		e.Probe("collected_label_set_touched_again")
 	}
 	// fresh copy with the same metric contents
